@@ -18,14 +18,14 @@ EXTENDS Naturals, Sequences, FiniteSets, TLC
 CONSTANTS MaxEv,     \* simulator events explored
           MaxInj,    \* injected events explored
           MaxDown,   \* region teardowns explored
-          Batches    \* which response shapes the simulator uses (subset of 1..8)
+          Batches    \* which response shapes the simulator uses (subset of 1..11)
 
 VARIABLES
     (* proxy *)   queue, cache, regs, seen,
     (* sim *)     nev, sid, infl,
     (* viewer *)  vack, got,
-    (* ghosts *)  ninj, ndown, sentOK, dropped, announced
-vars == <<queue, cache, regs, seen, nev, sid, infl, vack, got, ninj, ndown, sentOK, dropped, announced>>
+    (* ghosts *)  ninj, ndown, sentOK, dropped, announced, unseen
+vars == <<queue, cache, regs, seen, nev, sid, infl, vack, got, ninj, ndown, sentOK, dropped, announced, unseen>>
 
 Range(s) == {s[i] : i \in DOMAIN s}
 None == [k |-> "undef"]                       \* the protocol's no-events form
@@ -42,8 +42,16 @@ IsInj(e) == e > 900
 (*  "ba" / "bs" / "bu" / "bi"  an untemplated event whose body is not a map but an LLSD    *)
 (*       array / string / undef / integer (BK rotates through them with the event number,  *)
 (*       so every form meets every context);                                               *)
+(*  "CR" CrossedRegion (template-complete: RegionData AND Info blocks) announces .reg too;  *)
 (* How (and whether) the proxy can decode an event never changes how the response is       *)
-(* processed: all non-announcing kinds are the same to every action below.                 *)
+(* processed: all non-announcing kinds above are the same to every action below.           *)
+(*  "hr" a templated, decodable-looking event on which the proxy's own handling RAISES     *)
+(*       (e.g. a TeleportFinish whose U32 fields are plain LLSD integers).  The proxy then *)
+(*       gives up rewriting THIS response: it reaches the viewer exactly as the simulator   *)
+(*       sent it (nothing lost, duplicated or reordered -- events addons wanted swallowed   *)
+(*       included), addons are not shown the raising event nor what follows it, regions     *)
+(*       announced behind it are not registered, pending injections keep waiting and the    *)
+(*       response is not remembered for replay.                                             *)
 Ev(k) == [k |-> k, reg |-> 0]
 P == Ev("p")
 Ann(k, x) == [k |-> k, reg |-> x]
@@ -55,15 +63,22 @@ Batch(i) == CASE i = 1 -> <<Ev("to")>>
               [] i = 5 -> <<Ev("to"), Ann("TF", 3)>>
               [] i = 6 -> <<Ann("ES", 2), Ann("TF", 2)>>
               [] i = 7 -> <<Ev("tc"), BK(nev + 2)>>
-              [] i = 8 -> <<BK(nev + 1), Ann("TF", 3)>>
+              [] i = 8 -> <<BK(nev + 1), Ann("CR", 3)>>
+              [] i = 9 -> <<P, Ev("hr")>>
+              [] i = 10 -> <<Ev("hr"), Ann("CR", 2)>>
+              [] i = 11 -> <<Ann("CR", 2), Ev("hr")>>
 (* Environment: addons swallow only events that announce no region (what a swallowed        *)
 (* announcement means for registration is left open by the property).                       *)
-Swallowable(b) == {i \in DOMAIN b : b[i].reg = 0}
+RaisePos(b) == LET ix == {i \in DOMAIN b : b[i].k = "hr"} IN
+               IF ix = {} THEN 0 ELSE CHOOSE i \in ix : \A j \in ix : i <= j
+(* the part of the response the proxy gets to process *)
+Handled(b) == IF RaisePos(b) = 0 THEN b ELSE SubSeq(b, 1, RaisePos(b) - 1)
+Swallowable(b) == {i \in DOMAIN Handled(b) : b[i].reg = 0}
 
 Init == /\ queue = <<>> /\ cache = [ack |-> 0, pl |-> None] /\ regs = <<>> /\ seen = <<>>
         /\ nev = 0 /\ sid = 0 /\ infl = [on |-> FALSE, ack |-> 0]
         /\ vack = 0 /\ got = <<>>
-        /\ ninj = 0 /\ ndown = 0 /\ sentOK = <<>> /\ dropped = {} /\ announced = {}
+        /\ ninj = 0 /\ ndown = 0 /\ sentOK = <<>> /\ dropped = {} /\ announced = {} /\ unseen = {}
 
 CacheHit(a) == cache.ack = a /\ cache.pl # None
 
@@ -72,12 +87,12 @@ CacheHit(a) == cache.ack = a /\ cache.pl # None
 OutPoll == IF CacheHit(vack) THEN cache.pl ELSE [k |-> "fwd"]
 PollFwd == /\ ~infl.on /\ ~CacheHit(vack)
            /\ infl' = [on |-> TRUE, ack |-> vack]
-           /\ UNCHANGED <<queue, cache, regs, seen, nev, sid, vack, got, ninj, ndown, sentOK, dropped, announced>>
+           /\ UNCHANGED <<queue, cache, regs, seen, nev, sid, vack, got, ninj, ndown, sentOK, dropped, announced, unseen>>
 PollCached(lost) ==
     /\ ~infl.on /\ CacheHit(vack)
     /\ IF lost THEN UNCHANGED <<vack, got>>
        ELSE vack' = cache.pl.id /\ got' = got \o cache.pl.evs
-    /\ UNCHANGED <<queue, cache, regs, seen, nev, sid, infl, ninj, ndown, sentOK, dropped, announced>>
+    /\ UNCHANGED <<queue, cache, regs, seen, nev, sid, infl, ninj, ndown, sentOK, dropped, announced, unseen>>
 
 (* The simulator answers the outstanding poll with the events of shape b; addons swallow   *)
 (* the events at positions sw.  OUTPUT: the body handed to the viewer.                     *)
@@ -85,26 +100,29 @@ Evs(b) == [i \in DOMAIN b |-> nev + i]
 Surv(b, sw) == LET ix == SelectSeq([i \in DOMAIN b |-> i], LAMBDA i : i \notin sw)
                IN [j \in DOMAIN ix |-> nev + ix[j]]
 OutEvs(b, sw) == Surv(b, sw) \o queue
-OutRespond(b, sw) == IF OutEvs(b, sw) = <<>> THEN None ELSE Pl(sid + 1, OutEvs(b, sw))
+OutRespond(b, sw) == IF RaisePos(b) > 0 THEN Pl(sid + 1, Evs(b))          \* untouched
+                     ELSE IF OutEvs(b, sw) = <<>> THEN None ELSE Pl(sid + 1, OutEvs(b, sw))
 RECURSIVE AddRegs(_, _, _)
 AddRegs(rs, b, i) == IF i > Len(b) THEN rs
                      ELSE IF b[i].reg # 0 /\ b[i].reg \notin Range(rs) THEN AddRegs(Append(rs, b[i].reg), b, i + 1)
                      ELSE AddRegs(rs, b, i + 1)
 SimRespond(i, sw, lost) ==
     /\ infl.on /\ i \in Batches
-    /\ LET b == Batch(i) IN
+    /\ LET b == Batch(i)  h == Handled(b)  raised == RaisePos(b) > 0 IN
         /\ nev + Len(b) <= MaxEv
         /\ sw \subseteq Swallowable(b)
-        /\ (lost => OutRespond(b, sw) # None)            \* nothing to lose in an undef response
-        /\ cache' = [ack |-> infl.ack, pl |-> OutRespond(b, sw)]
-        /\ queue' = <<>>
-        /\ seen' = seen \o Evs(b)
-        /\ regs' = AddRegs(regs, b, 1)
-        /\ announced' = announced \cup {b[j].reg : j \in {j \in DOMAIN b : b[j].reg # 0}}
+        /\ (lost => OutRespond(b, sw) # None /\ ~raised)   \* nothing to lose in an undef response; a response
+                                                           \* the proxy gave up on is not replayable (environment)
+        /\ IF raised THEN UNCHANGED <<cache, queue>>
+           ELSE cache' = [ack |-> infl.ack, pl |-> OutRespond(b, sw)] /\ queue' = <<>>
+        /\ seen' = seen \o SubSeq(Evs(b), 1, Len(h))
+        /\ unseen' = unseen \cup {nev + j : j \in (Len(h) + 1)..Len(b)}
+        /\ regs' = AddRegs(regs, h, 1)
+        /\ announced' = announced \cup {h[j].reg : j \in {j \in DOMAIN h : h[j].reg # 0}}
         /\ nev' = nev + Len(b) /\ sid' = sid + 1
-        /\ sentOK' = sentOK \o Surv(b, sw)
+        /\ sentOK' = sentOK \o (IF raised THEN Evs(b) ELSE Surv(b, sw))
         /\ IF lost \/ OutRespond(b, sw) = None THEN UNCHANGED <<vack, got>>
-           ELSE vack' = sid + 1 /\ got' = got \o OutEvs(b, sw)
+           ELSE vack' = sid + 1 /\ got' = got \o OutRespond(b, sw).evs
     /\ infl' = [on |-> FALSE, ack |-> 0]
     /\ UNCHANGED <<ninj, ndown, dropped>>
 
@@ -115,12 +133,12 @@ OutFail(kind) == IF kind = "502" THEN [k |-> "fail"] ELSE None
 SimFail(kind) ==
            /\ infl.on /\ kind \in FailKinds
            /\ infl' = [on |-> FALSE, ack |-> 0]
-           /\ UNCHANGED <<queue, cache, regs, seen, nev, sid, vack, got, ninj, ndown, sentOK, dropped, announced>>
+           /\ UNCHANGED <<queue, cache, regs, seen, nev, sid, vack, got, ninj, ndown, sentOK, dropped, announced, unseen>>
 
 (* an addon injects an event *)
 Inject == /\ ninj < MaxInj
           /\ queue' = Append(queue, 901 + ninj) /\ ninj' = ninj + 1
-          /\ UNCHANGED <<cache, regs, seen, nev, sid, infl, vack, got, ndown, sentOK, dropped, announced>>
+          /\ UNCHANGED <<cache, regs, seen, nev, sid, infl, vack, got, ndown, sentOK, dropped, announced, unseen>>
 
 (* The region is torn down (and may be re-established later: the viewer starts again with  *)
 (* the undef ack).  What was still owed to the viewer is dropped with the region.          *)
@@ -129,10 +147,10 @@ Teardown == /\ ndown < MaxDown /\ ndown' = ndown + 1
             /\ dropped' = dropped \cup Range(Owed) \cup Range(queue)
             /\ queue' = <<>> /\ cache' = [ack |-> 0, pl |-> None]
             /\ infl' = [on |-> FALSE, ack |-> 0] /\ vack' = 0
-            /\ UNCHANGED <<regs, seen, nev, sid, got, ninj, sentOK, announced>>
+            /\ UNCHANGED <<regs, seen, nev, sid, got, ninj, sentOK, announced, unseen>>
 
 Next == \/ PollFwd \/ \E lost \in BOOLEAN : PollCached(lost)
-        \/ \E i \in 1..8 : \E sw \in SUBSET (1..2) : \E lost \in BOOLEAN : SimRespond(i, sw, lost)
+        \/ \E i \in 1..11 : \E sw \in SUBSET (1..2) : \E lost \in BOOLEAN : SimRespond(i, sw, lost)
         \/ (\E kind \in FailKinds : SimFail(kind)) \/ Inject \/ Teardown
 Spec == Init /\ [][Next]_vars
 
@@ -151,13 +169,13 @@ InjectedOnce ==
             cnt == Cardinality({i \in DOMAIN all : all[i] = e})
         IN IF e \in dropped THEN cnt = 0 ELSE cnt = 1
 (* ... and leaves with the next response that carries events *)
-InjectedNext == [][cache'.pl # None /\ <<cache'.pl, sid'>> # <<cache.pl, sid>> =>
+InjectedNext == [][cache'.pl # None /\ sid' # sid /\ cache'.pl.id = sid' =>
                        /\ queue' = <<>> /\ Range(queue) \subseteq Range(cache'.pl.evs)]_vars
 InjectedWaits == [][queue # <<>> /\ queue' = <<>> => (cache'.pl # None /\ sid' # sid) \/ ndown' # ndown]_vars
 (* an emptied response is the undef form, never an empty event list *)
 UndefForm == cache.pl # None => cache.pl.evs # <<>>
 (* a repeated poll is answered with the previous response and addons do not see it again *)
-SeenOnce == seen = [i \in 1..nev |-> i]
+SeenOnce == seen = SelectSeq([i \in 1..nev |-> i], LAMBDA e : e \notin unseen)
 ReplayIsLast == [][\A lost \in BOOLEAN : PollCached(lost) => OutPoll = cache.pl /\ seen' = seen /\ cache' = cache]_vars
 (* announced regions are registered exactly once *)
 RegsOnce == NoDups(regs) /\ Range(regs) = announced
